@@ -20,7 +20,9 @@ RULE = ('Hypothesis: FileSpec (1-5 dims of length 1-5, 1-5 variables of rank '
         'any start/stop/step (None, negative, reversed, empty, out of range),'
         ' index list with repeats/negatives; >=2 lists are equal-length '
         '(zipped) with default or custom newdims.  Thorough also enumerates '
-        'every kind-combination x keyword order on a fixed 2x3x2x3 file. '
+        'every kind-combination x keyword order on a fixed 2x3x2x3 file; '
+        'every run enumerates 31 selections on a 48x80x90 file whose '
+        'results exceed 1 MiB (thorough: also 40x330x330, > 16 MiB). '
         'Oracle: np.take/slice per axis on the model, ints kept as length-1 '
         'axes; zipped = pointwise stack at the first list axis; data and '
         'masks bit-identical, attributes equal, dimension lengths = '
@@ -263,6 +265,45 @@ def enumerate_cases(tier):
             orders = [list(p) for p in itertools.permutations(sel)]
         for o in orders:
             yield dict(file=fs, sel=o, newdims=None)
+    for c in large_cases(tier):
+        yield c
+
+
+def large_cases(tier):
+    """variables whose sliced results exceed 1 MiB (and one above 16 MiB):
+    an implementation may copy large results block-wise or read them in
+    sorted order; every selector kind on the leading, a middle and the last
+    axis, alone and combined"""
+    shapes = [(48, 80, 90)] + ([(40, 330, 330)] if tier == 'thorough' else [])
+    for nt, ny, nx in shapes:
+        dims = [['t', nt, True], ['y', ny, False], ['x', nx, False]]
+        vars_ = [dict(name='BIG', dims=['t', 'y', 'x'], dtype='f4',
+                      gen=99991, mask=None, fill=None, attrs={'units': 'K'}),
+                 dict(name='BIGM', dims=['t', 'y', 'x'], dtype='f4',
+                      gen=65521, genmask=7, mask=None, fill=-999.0,
+                      attrs={}),
+                 dict(name='t', dims=['t'], dtype='f8',
+                      data=[float(i) for i in range(nt)], mask=None,
+                      fill=None, attrs={}),
+                 dict(name='XY', dims=['x', 'y'], dtype='i4', gen=1000,
+                      mask=None, fill=None, attrs={})]
+        fs = dict(dims=dims, vars=vars_, gattrs={'title': 'large'})
+        per = {
+            't': [['slice', [12, 44, None]], ['slice', [1, None, 2]],
+                  ['slice', [None, None, -1]], ['int', 5], ['int', -1],
+                  ['list', [3, 0, 2, 2, 1] + list(range(47, 10, -1))],
+                  ['list', list(range(2, 46))]],
+            'y': [['slice', [2, 75, None]], ['slice', [None, None, -1]],
+                  ['list', list(range(79, 3, -1)) + [0, 0]]],
+            'x': [['slice', [3, None, None]], ['slice', [None, -2, 1]],
+                  ['list', [5, 1] + list(range(10, 88))]]}
+        for d, sels in per.items():
+            for s1 in sels:
+                yield dict(file=fs, sel=[[d] + s1], newdims=None, large=1)
+        for st_ in per['t'][:4]:
+            for sy in per['y'][:2]:
+                yield dict(file=fs, sel=[['y'] + sy, ['t'] + st_],
+                           newdims=None, large=1)
 
 
 # ------------------------------------------------------------------ oracle
@@ -503,6 +544,8 @@ def check_case(case):
     # ---- labels / non-triviality
     kinds = set(k for k, v in sel.values())
     r.label(*['sel:' + k for k in sorted(kinds)])
+    if case.get('large'):
+        r.label('result>1MiB')
     nt = False
     for mv in m.vars.values():
         ks = set(sel[d][0] for d in mv.dims if d in sel)
